@@ -201,7 +201,7 @@ func init() {
 		o := o
 		p.Strata = append(p.Strata, mon.Stratum{
 			Name: "random/" + o.Name,
-			N:    qt(14000, 400000),
+			N:    qt(14000, 800000),
 			Run: func(c *mon.Ctx, i int) {
 				prof := []gen.Profile{gen.PDefault, gen.PTiny, gen.PObjects, gen.PNulls}[i%4]
 				var a, b any
